@@ -797,6 +797,14 @@ func (bp *brokerProducer) run() {
 				continue
 			}
 
+			if msg.flags&fin == fin {
+				// this worker is not retrying the partition: the bounce that made the partition
+				// producer raise its retry level came from another (abandoned) worker. The chaser
+				// has nothing to wait for here; send it straight back instead of treating it as data.
+				bp.parent.retryMessage(msg, ErrShuttingDown)
+				continue
+			}
+
 			if bp.buffer.wouldOverflow(msg) {
 				Logger.Printf("producer/broker/%d maximum request accumulated, waiting for space\n", bp.broker.ID())
 				if err := bp.waitForSpace(msg, false); err != nil {
